@@ -435,7 +435,9 @@ class Decoder:
             except ValueError:
                 e = ["?"]
             log.append((f, e))
-            return json.dumps(e) in true_set
+            holds = json.dumps(e) in true_set
+            # odd-numbered predicates answer with a truthy / falsy non-bool (a condition "holds" when its result is truthy)
+            return holds if f % 2 == 0 else (6 if holds else 0)
         pred.__name__ = f"upred{f}"
         return pred
 
